@@ -195,6 +195,94 @@ def _run_config(prop, cfg, tag, simulate=None):
             "sample_keys": [k for k in list(expect)[:: max(1, len(expect) // 3)]][:3]}
 
 
+class _Res:
+    def __init__(self, distinct, generated, wall, cmd):
+        self.distinct, self.generated, self.wall, self.cmd = distinct, generated, wall, cmd
+        self.tail, self.errors, self.ok = [], [], True
+
+
+REPO_TEST_FILES = ["tests/test_sequence.py", "tests/test_eom.py", "tests/test_dmm.py",
+                   "tests/test_sequence_sampler.py", "tests/test_abstract_repr.py", "tests/test_json.py",
+                   "tests/test_paramseq.py", "tests/test_simulation.py"]
+
+
+class _RecCfg:
+    """Stand-in for a configuration: recorded traces carry their own calls."""
+    max_depth = 0
+    calls = []
+
+
+def run_recorded(prop, preds):
+    """Code -> spec from an independent source: the repository's own tests run against the tree with
+    the recorder of harness/record.py; TLC validates every recorded trace (strict conformance with
+    the model + the declarative predicates on the real states).  Memoised on the tree digest."""
+    import glob
+    import pickle
+    import subprocess
+    from .env import REPO, VERIF
+    tag = "repotests"
+    cdir = os.path.join(WORK, "cache")
+    os.makedirs(cdir, exist_ok=True)
+    cpath = os.path.join(cdir, f"{tag}-{tree_digest(tag)}.pkl")
+    if os.path.exists(cpath) and not os.environ.get("VERIF_NOCACHE"):
+        with open(cpath, "rb") as fh:
+            r = pickle.load(fh)
+        r["cache_hit"] = True
+    else:
+        t0 = time.time()
+        work = os.path.join(WORK, "rec")
+        shutil.rmtree(work, ignore_errors=True)
+        os.makedirs(work, exist_ok=True)
+        rep = os.path.join(work, "report")
+        env = dict(os.environ)
+        env.update({"VERIF_TRACE_REPORT": rep, "VERIF_TRACE_WORK": work, "MPLBACKEND": "Agg",
+                    "PYTHONPATH": f"{VERIF}:{REPO}/pulser-core:{REPO}/pulser-simulation"})
+        cmd = ["/venv/bin/python", "-m", "pytest", *REPO_TEST_FILES, "-q", "-p", "harness.pytest_recorder",
+               "-p", "no:cacheprovider", "-n", "12", "-x", "--timeout=900"]
+        pr = subprocess.run(cmd, cwd=REPO, env=env, capture_output=True, text=True)
+        tail = pr.stdout.strip().split("\n")[-1] if pr.stdout else ""
+        tot = {"traces": 0, "lines": 0, "tlc_states": 0, "sequences_seen": 0}
+        reports, errors, samples, dead, ops = [], [], [], {}, {}
+        for f in glob.glob(rep + ".*"):
+            with open(f) as fh:
+                d = json.load(fh)
+            for k in tot:
+                tot[k] += d["summary"][k]
+            errors += d["summary"]["errors"]
+            reports += d["reports"]
+            samples += d["samples"]
+            for k, v in d["summary"]["prefix_ended_by"].items():
+                dead[k] = dead.get(k, 0) + v
+            for k, v in d["summary"]["ops"].items():
+                ops[k] = ops.get(k, 0) + v
+        if errors or tot["traces"] == 0:
+            print(f"MACHINERY-FAILURE: trace validation of the repository tests failed: {errors[:2]} {tail}")
+            sys.exit(2)
+        cands = []
+        seen = set()
+        for r_ in reports:
+            for pred in r_["v"]:
+                sig_key = (pred, json.dumps(r_["call"], sort_keys=True), r_["out"])
+                if sig_key in seen:
+                    continue
+                seen.add(sig_key)
+                cands.append((pred, r_))
+        r = {"tag": tag, "tlc": _Res(tot["tlc_states"], tot["tlc_states"], time.time() - t0, " ".join(cmd)),
+             "expect": 0, "leaves": 0, "steps": tot["lines"], "compared": tot["lines"], "mismatches": 0,
+             "mismatch_samples": [], "drift_lines": sum(1 for x in reports if x["drift"]),
+             "traces_checked": tot["traces"], "tv_states": tot["tlc_states"], "rec_cands": cands,
+             "sample_keys": [], "rec_samples": samples[:3], "pytest": tail, "prefix_ended_by": dead, "ops": ops,
+             "sequences_seen": tot["sequences_seen"], "cache_hit": False,
+             "run_wall_s": round(time.time() - t0, 1)}
+        with open(cpath + ".tmp", "wb") as fh:
+            pickle.dump(r, fh)
+        os.replace(cpath + ".tmp", cpath)
+    r = dict(r)
+    r["cands"] = []
+    r["rec"] = [(p_, rr) for p_, rr in r["rec_cands"] if p_.startswith(tuple(preds))]
+    return r
+
+
 def decide(prop, preds, runs, tier, t0, level_note=""):
     """Classify candidates, print verdict lines, write evidence, return exit code."""
     known = findings.load()
@@ -212,10 +300,33 @@ def decide(prop, preds, runs, tier, t0, level_note=""):
                 kf.setdefault(e["id"], [e, 0])[1] += 1
             else:
                 viol.append((cfg, r["tag"], pred, key, outs, src, sig))
+    rec_viol = []
+    for cfg, r in runs:
+        for pred, rr in r.get("rec", []):
+            c = rr["call"] or {}
+            sig = {"pred": pred, "out": rr["out"]}
+            sig.update({k: v for k, v in c.items() if isinstance(v, (str, int, bool))})
+            hist = rr.get("history") or []
+            pre_state = None
+            e = findings.match(prop, sig, known)
+            if e is not None:
+                kf.setdefault(e["id"], [e, 0])[1] += 1
+            else:
+                rec_viol.append((pred, rr, sig))
     for e, n in kf.values():
         print(f"KNOWN-FINDING: property={prop} {e['id']}: {e['description']} ({n} occurrences)")
     rc = 0
     shutil.rmtree(os.path.join(WORK, prop, "replay"), ignore_errors=True)
+    if rec_viol:
+        rc = 1
+        os.makedirs(os.path.join(WORK, prop, "replay"), exist_ok=True)
+        for n_, (pred, rr, sig) in enumerate(rec_viol[:8], 1):
+            path = os.path.join(WORK, prop, "replay", f"repotests-{n_}.json")
+            with open(path, "w") as fh:
+                json.dump({"property": prop, "config": "repotests", "pred": pred, "origin": rr.get("origin"),
+                           "history": rr.get("history"), "signature": sig}, fh, indent=1, default=str)
+            print(f"VIOLATION property={prop} replay={path}")
+            print(f"  {pred} in {rr.get('origin')} after {json.dumps(rr.get('history'), default=str)[:300]} [recorded]")
     if viol:
         rc = 1
         os.makedirs(os.path.join(WORK, prop, "replay"), exist_ok=True)
@@ -241,6 +352,8 @@ def decide(prop, preds, runs, tier, t0, level_note=""):
     for cfg, r in runs:
         for k in r["sample_keys"]:
             samples.append({"config": r["tag"], "calls": describe(cfg, k)})
+        for sm in r.get("rec_samples", []):
+            samples.append({"config": "repotests", **sm})
     cov = {
         "states": states, "transitions": trans,
         "traces_validated_against_impl": sum(r["leaves"] + r["traces_checked"] for _, r in runs),
@@ -257,6 +370,9 @@ def decide(prop, preds, runs, tier, t0, level_note=""):
         "per_config": [{"config": r["tag"], "tlc_distinct": r["tlc"].distinct,
                         "tlc_generated": r["tlc"].generated, "tlc_s": round(r["tlc"].wall, 1),
                         "depth": cfg.max_depth, "calls_in_lattice": len(cfg.calls),
+                        **({"pytest": r["pytest"], "sequences_recorded": r["sequences_seen"],
+                            "recorded_lines_validated": r["steps"], "prefix_ended_by": r["prefix_ended_by"],
+                            "recorded_ops": r["ops"]} if r["tag"] == "repotests" else {}),
                         "leaves_replayed": r["leaves"], "mismatches": r["mismatches"],
                         "memoised_on_tree_digest": r.get("cache_hit", False),
                         "explore_replay_wall_s": r.get("run_wall_s"),
@@ -267,7 +383,7 @@ def decide(prop, preds, runs, tier, t0, level_note=""):
     if nm and rc == 0:
         print(f"CONFORMANCE-DRIFT: {nm} behaviours differ from the mirrored model without "
               f"violating {prop} (judged on the real states by TLC); see evidence")
-    evidence.write(prop, tier, seed(), "model_checking", cov, time.time() - t0, len(viol),
+    evidence.write(prop, tier, seed(), "model_checking", cov, time.time() - t0, len(viol) + len(rec_viol),
                    assumptions=["fall times / EOM off-detunings are numeric oracles read from the tree"
                                 " when the check starts (DESIGN 2.4)", level_note])
     return rc
